@@ -61,4 +61,27 @@ def addArray (H : Heap V) (ap ar af : Nat) : Heap V × Nat :=
 /-- number of references to `a` that the call consumes (the two operand slots on the stack) -/
 def uses (ap ar a : Nat) : Nat := (if a = ap then 1 else 0) + (if a = ar then 1 else 0)
 
+/-- the selection of slice_array once `from` / `to` are clamped (same as `LpcOps.sliceArray`, restated here because
+    this file is below Model.lean) -/
+def sliceItems (l : List V) (frm to : Int) : List V :=
+  let f := if frm < 0 then 0 else frm
+  let t := if to ≥ l.length then (l.length : Int) - 1 else to
+  if f > t then [] else (l.drop f.toNat).take (t - f + 1).toNat
+
+/-- slice_array (p, from, to) (lib/lpc/array.c; ranges `a[i..j]`, `a[i..]` on arrays): the caller's reference to p is consumed.
+    Empty selection: free_array (p), the (shared) null array is the result - modelled as the fresh block `af` holding [].
+    Otherwise `--p->ref`; the block is cut down in place only when that was the last reference (test regenerated:
+    `NV.Gen.C03.sliceArrayReuse`), else a new block receives copies. -/
+def sliceArray (H : Heap V) (ap af : Nat) (frm to : Int) : Heap V × Nat :=
+  let f := if frm < 0 then 0 else frm
+  let t := if to ≥ (H ap).items.length then ((H ap).items.length : Int) - 1 else to
+  if f > t then
+    -- free_array (p): the block goes back to the allocator when this was the last reference
+    let H1 := if (H ap).ref - 1 = 0 then upd H ap freed else decRef H ap
+    (upd H1 af ⟨1, []⟩, af)
+  else if NV.Gen.C03.sliceArrayReuse ((H ap).ref - 1) then
+    (upd H ap ⟨1, sliceItems (H ap).items frm to⟩, ap)
+  else
+    (upd (decRef H ap) af ⟨1, sliceItems (H ap).items frm to⟩, af)
+
 end NV.C03.Heap
